@@ -16,9 +16,10 @@ from: on every run it re-reads /repo's working tree and
   2. compares them with the pinned statements of translate/footprint_pinned.json (the text the
      model corresponds to; regenerate with `python3 translate/footprint_src.py --pin` only
      after re-transcribing FpModel.v);
-  3. checks that every `unsafe` token of lightmotif/src lies inside one of the listed functions
-     (neon.rs included: its kernels do not compile on x86_64 and are tied by text and by the
-     interpreter only): new unsafe code is unmodelled.
+  3. checks that every `unsafe` (and `transmute`) token of the four crates — lightmotif/src,
+     lightmotif-py/lightmotif, lightmotif-io/src, lightmotif-tfmpvalue/src — lies inside one of the
+     listed functions (neon.rs included: its kernels do not compile on x86_64 and are tied by text and
+     by the interpreter only; the PyO3 glue is tied by text only): new unsafe code is unmodelled.
 
 A difference is a broken tie (reported by the runner as a broken obligation, which triggers the
 wider sanitizer search), never a crash.  Harmless rewrites of these statements break the tie as
@@ -86,10 +87,50 @@ FUNCTIONS = [
     ("seq.rs", "configure_wrap", 0),
     ("scores.rs", "is_empty", 0),
 ]
+# source roots of the four crates; a file name starting with one of the prefixes lives in that crate
+CRATES = {"py/": "lightmotif-py/lightmotif", "io/": "lightmotif-io/src", "tfm/": "lightmotif-tfmpvalue/src"}
+
+
+def src_path(repo, f):
+    for pre, root in CRATES.items():
+        if f.startswith(pre):
+            return os.path.join(repo, root, f[len(pre):])
+    return os.path.join(repo, SRC, f)
+
+
+# lightmotif-py (PyO3 glue): functions addressed by (file, fn name, regex on the header of the enclosing `impl`;
+# None = a free function).  Everything `unsafe` of the Python module is here: the raw pointers handed to Python
+# through the buffer protocol (`as_ptr`, the five `__getbuffer__`, the constructors that compute the shape and
+# strides a consumer walks the pointer with), the Scanner that keeps `&'static` references into two PyCells
+# (`std::mem::transmute`; its keep-alive fields are pinned as the item `struct Scanner`), and the functions
+# that call `configure` on a sequence other objects may point into.
+PY_FUNCTIONS = [
+    ("py/lib.rs", "as_ptr", r"^impl EncodedSequenceData\b"),
+    ("py/lib.rs", "as_ptr", r"^impl StripedSequenceData\b"),
+    ("py/lib.rs", "as_ptr", r"^impl ScoringMatrixData\b"),
+    ("py/lib.rs", "__getbuffer__", r"^impl EncodedSequence\b"),
+    ("py/lib.rs", "__getbuffer__", r"^impl StripedSequence\b"),
+    ("py/lib.rs", "__getbuffer__", r"^impl ScoringMatrix\b"),
+    ("py/lib.rs", "__getbuffer__", r"^impl ScoreDistribution\b"),
+    ("py/lib.rs", "__getbuffer__", r"^impl StripedScores\b"),
+    ("py/lib.rs", "from", r"^impl From<StripedSequenceData> for StripedSequence\b"),
+    ("py/lib.rs", "from", r"^impl From<lightmotif::scores::StripedScores<f32>> for StripedScores\b"),
+    ("py/lib.rs", "new", r"^impl ScoringMatrix\b"),
+    ("py/lib.rs", "calculate", r"^impl ScoringMatrix\b"),
+    ("py/lib.rs", "__init__", r"^impl Scanner\b"),
+    ("py/lib.rs", "__next__", r"^impl Scanner\b"),
+    ("py/lib.rs", "scan", None),
+]
+
 # other pinned items: (key, file, regex over the neutralised source)
 SNIPPETS = [
     ("dense.rs::struct Row", "dense.rs", r"((?:#\[[^\]]*\]\s*)+)struct\s+Row\s*<[^{]*\{[^}]*\}"),
     ("seq.rs::DEFAULT_EXTRA_ROWS", "seq.rs", r"const\s+DEFAULT_EXTRA_ROWS\s*:\s*usize\s*=\s*\w+\s*;"),
+    # the Python Scanner: the two `Py<..>` fields are what keeps the cells its `&'static` references point into alive
+    ("py/lib.rs::struct Scanner", "py/lib.rs", r"((?:#\[[^\]]*\]\s*)*)pub\s+struct\s+Scanner\s*\{[^}]*\}"),
+    ("py/lib.rs::struct StripedSequence", "py/lib.rs", r"pub\s+struct\s+StripedSequence\s*\{[^}]*\}"),
+    ("py/lib.rs::struct StripedScores", "py/lib.rs", r"pub\s+struct\s+StripedScores\s*\{[^}]*\}"),
+    ("py/lib.rs::struct ScoringMatrix", "py/lib.rs", r"pub\s+struct\s+ScoringMatrix\s*\{[^}]*\}"),
 ]
 # files scanned for `unsafe` tokens
 SCAN_SKIP = ()
@@ -184,6 +225,26 @@ def find_function(code, name, occurrence):
     raise ParseError("unbalanced braces in %s" % name)
 
 
+IMPL_RX = re.compile(r"^impl\b[^{;]*\{", re.M)
+
+
+def find_function_in_impl(code, name, impl_rx):
+    """Like find_function, selecting the `fn name` whose enclosing top-level `impl` header matches impl_rx
+    (None: the first `fn name` that is not inside any impl block, i.e. a free function)."""
+    impls = [(m.start(), re.sub(r"\s+", " ", m.group(0)).strip()) for m in IMPL_RX.finditer(code)]
+    hits = [m for m in re.finditer(r"\bfn\s+%s\b" % re.escape(name), code)]
+    for k, h in enumerate(hits):
+        before = [hdr for (pos, hdr) in impls if pos < h.start()]
+        line_start = code.rfind("\n", 0, h.start()) + 1
+        indented = code[line_start:h.start()].startswith((" ", "\t"))
+        if impl_rx is None:
+            if not indented:
+                return find_function(code, name, k)
+        elif before and indented and re.search(impl_rx, before[-1]):
+            return find_function(code, name, k)
+    raise ParseError("function %s in `%s` not found" % (name, impl_rx or "<free>"))
+
+
 def statements(body):
     """Split a neutralised function body into statements at `;`, `{`, `}` (delimiter kept),
     whitespace normalised."""
@@ -238,8 +299,18 @@ def extract(repo=None):
     table = {}
     spans = {}
     cache = {}
+    for (f, name, impl_rx) in PY_FUNCTIONS:
+        if f not in cache:
+            cache[f] = neutralise(open(src_path(repo, f)).read())
+        code = cache[f]
+        sig, b0, b1 = find_function_in_impl(code, name, impl_rx)
+        header = re.sub(r"\s+", " ", code[sig:b0]).strip()
+        stmts = [st for st in statements(code[b0:b1]) if relevant(st)]
+        tag = re.sub(r"^\^|\\b$", "", impl_rx) if impl_rx else "fn"
+        table["%s::%s::%s" % (f, tag, name)] = [header] + stmts
+        spans.setdefault(f, []).append((code.rfind("\n", 0, sig) + 1, b1, name))
     for (f, name, occ) in FUNCTIONS:
-        path = os.path.join(repo, SRC, f)
+        path = src_path(repo, f)
         if f not in cache:
             cache[f] = neutralise(open(path).read())
         code = cache[f]
@@ -251,7 +322,7 @@ def extract(repo=None):
         spans.setdefault(f, []).append((code.rfind("\n", 0, sig) + 1, b1, name))
     for (key, f, rx) in SNIPPETS:
         if f not in cache:
-            cache[f] = neutralise(open(os.path.join(repo, SRC, f)).read())
+            cache[f] = neutralise(open(src_path(repo, f)).read())
         m = re.search(rx, cache[f])
         if not m:
             raise ParseError("item %s not found" % key)
@@ -260,22 +331,24 @@ def extract(repo=None):
 
 
 def unsafe_outside(spans, cache, repo=None):
-    """`unsafe` tokens of lightmotif/src that are not inside a listed function."""
+    """`unsafe` / `transmute` tokens of the four crates (lightmotif/src, lightmotif-py/lightmotif,
+    lightmotif-io/src, lightmotif-tfmpvalue/src) that are not inside a listed function."""
     repo = repo or REPO
     bad = []
-    root = os.path.join(repo, SRC)
-    for d, _, files in os.walk(root):
-        for fn in sorted(files):
-            if not fn.endswith(".rs"):
-                continue
-            rel = os.path.relpath(os.path.join(d, fn), root)
-            if rel in SCAN_SKIP:
-                continue
-            code = cache.get(rel) or neutralise(open(os.path.join(d, fn)).read())
-            for m in re.finditer(r"\bunsafe\b", code):
-                if not any(a <= m.start() < b for (a, b, _) in spans.get(rel, [])):
-                    line = code.count("\n", 0, m.start()) + 1
-                    bad.append("%s:%d" % (rel, line))
+    roots = [("", os.path.join(repo, SRC))] + [(pre, os.path.join(repo, root)) for pre, root in CRATES.items()]
+    for pre, root in roots:
+        for d, _, files in os.walk(root):
+            for fn in sorted(files):
+                if not fn.endswith(".rs"):
+                    continue
+                rel = pre + os.path.relpath(os.path.join(d, fn), root)
+                if rel in SCAN_SKIP:
+                    continue
+                code = cache.get(rel) or neutralise(open(os.path.join(d, fn)).read())
+                for m in re.finditer(r"\bunsafe\b|\bmem::transmute\b|\btransmute\s*\(", code):
+                    if not any(a <= m.start() < b for (a, b, _) in spans.get(rel, [])):
+                        line = code.count("\n", 0, m.start()) + 1
+                        bad.append("%s:%d" % (rel, line))
     return bad
 
 
@@ -314,7 +387,7 @@ def translate():
         errors.append("unsafe code outside the modelled functions: " + ", ".join(outside[:8]))
     n = sum(len(v) for v in table.values())
     notes.append("source tie: %d memory-relevant statements of %d functions compared with translate/footprint_pinned.json; "
-                 "every `unsafe` of lightmotif/src lies inside them" % (n, len(table)))
+                 "every `unsafe`/`transmute` token of the four crates lies inside them" % (n, len(table)))
     if errors:
         return dict(ok=False, errors=["footprint source tie: " + e for e in errors[:6]], notes=notes)
     return dict(ok=True, notes=notes)
